@@ -65,7 +65,10 @@ UNIT4 = [("psd_tools.psd.patterns", "Patterns", ("read", "write")),
          ("psd_tools.psd.patterns", "VirtualMemoryArray", ("read", "write", "_write_body"))]
 UNIT5 = [("psd_tools.psd.linked_layer", "LinkedLayers", ("read", "write")),
          ("psd_tools.psd.linked_layer", "LinkedLayer", ("read", "write"))]
-UNITS = {"unit1": UNIT1, "unit2": UNIT2, "unit3": UNIT3, "unit4": UNIT4, "unit5": UNIT5}
+UNIT6 = [("psd_tools.psd.tagged_blocks", "SmartObjectLayerData", ("read", "write")),
+         ("psd_tools.psd.tagged_blocks", "PlacedLayerData", ("read", "write")),
+         ("psd_tools.psd.tagged_blocks", "TypeToolObjectSetting", ("read", "write"))]
+UNITS = {"unit1": UNIT1, "unit2": UNIT2, "unit3": UNIT3, "unit4": UNIT4, "unit5": UNIT5, "unit6": UNIT6}
 # classes a registry row is emitted for (tagged_blocks.TYPES: key -> class name)
 REGISTRY_CLASSES = {"unit2": ["EmptyElement", "IntegerElement", "ShortIntegerElement", "ByteElement", "StringElement", "Bytes",
                               "ProtectedSetting", "SheetColorSetting", "ReferencePoint", "SectionDividerSetting", "UserMask",
@@ -73,7 +76,8 @@ REGISTRY_CLASSES = {"unit2": ["EmptyElement", "IntegerElement", "ShortIntegerEle
                               "Annotations"],
                     "unit3": ["EffectsLayer"],
                     "unit4": ["Patterns"],
-                    "unit5": ["LinkedLayers"]}
+                    "unit5": ["LinkedLayers"],
+                    "unit6": ["SmartObjectLayerData", "PlacedLayerData", "TypeToolObjectSetting"]}
 
 
 def _s(x: str) -> str:
@@ -401,6 +405,28 @@ def gen_payload(ctx):
                  f"def linkedVersionMax : Nat := {t5['vmax']}\n"
                  "/-- the tests of the `if` statements of `LinkedLayer.read` / `write`, in source order -/\n"
                  f"def linkedConditions : List (String × String × String) := {rows4(conds5)}\n")
+    # ---- unit 6
+    t6 = {}
+    try:
+        TB = importlib.import_module("psd_tools.psd.tagged_blocks")
+        C = importlib.import_module("psd_tools.constants")
+        t6["smartObjectKinds"] = [bytes(x) for x in _validator_options(TB.SmartObjectLayerData, "kind")]
+        t6["smartObjectVersions"] = sorted(int(x) for x in _validator_options(TB.SmartObjectLayerData, "version"))
+        t6["placedVersions"] = sorted(int(x) for x in _validator_options(TB.PlacedLayerData, "version"))
+        t6["placedLayerTypes"] = sorted(int(m.value) for m in C.PlacedLayerType)
+        t6["typeToolTextVersions"] = sorted(int(x) for x in _validator_options(TB.TypeToolObjectSetting, "text_version"))
+        t6["typeToolWarpVersions"] = sorted(int(x) for x in _validator_options(TB.TypeToolObjectSetting, "warp_version"))
+    except Exception as e:  # noqa
+        notes.append(f"unit6 extraction failed: {type(e).__name__}: {e}")
+        t6 = {"smartObjectKinds": [], "smartObjectVersions": [], "placedVersions": [], "placedLayerTypes": [], "typeToolTextVersions": [],
+              "typeToolWarpVersions": []}
+    parts.append(
+        f"/-- options of the validators of SmartObjectLayerData.kind / .version -/\ndef smartObjectKinds : List (List UInt8) := {bl(t6['smartObjectKinds'])}\n"
+        f"def smartObjectVersions : List Nat := {t6['smartObjectVersions']}\n"
+        f"/-- options of the validator of PlacedLayerData.version; members of PlacedLayerType -/\ndef placedVersions : List Nat := {t6['placedVersions']}\n"
+        f"def placedLayerTypes : List Nat := {t6['placedLayerTypes']}\n"
+        f"/-- options of the validators of TypeToolObjectSetting.text_version / .warp_version -/\ndef typeToolTextVersions : List Nat := {t6['typeToolTextVersions']}\n"
+        f"def typeToolWarpVersions : List Nat := {t6['typeToolWarpVersions']}\n")
     for unit, names in REGISTRY_CLASSES.items():
         try:
             rows = registry_rows(names, notes)
